@@ -21,7 +21,11 @@ assume pure func (v reflect.Value) Index(j int) reflect.Value
   requires v.Kind() == reflect.Array || v.Kind() == reflect.Slice || v.Kind() == reflect.String
   requires 0 <= j && j < v.Len()
 
-assume pure func (v reflect.Value) Type() reflect.Type
+assume pure func (t reflect.Type) Kind() reflect.Kind
+
+-- the kind of a value is the kind of its type
+assume pure func (v reflect.Value) Type() (t reflect.Type)
+  ensures t.Kind() == v.Kind()
 
 assume pure func (v reflect.Value) Elem() reflect.Value
 
@@ -77,7 +81,7 @@ func Sprintfn(printer func(w SafePrinter)) (s RedactableString)
 func Fprint(w io.Writer, args ...interface{}) (n int, err error)
   may-panic
   modifies alloc, memU, wcount, wlast, wlen, wn, werr, fdp, fdk, fdar, fdao, fdal, fdf, fdfl, fdw
-  ensures [C16] wcount == old(wcount) + 1 && n == wn && err == werr
+  ensures [C06,C16] wcount == old(wcount) + 1 && n == wn && err == werr
   ensures [C01] WF(wlast, wlen, false)
   ensures [C03] LS(wlast, wlen)
   ensures [C16] Routed(1, args)
@@ -86,7 +90,7 @@ func Fprintf(w io.Writer, format string, args ...interface{}) (n int, err error)
   public format
   may-panic
   modifies alloc, memU, wcount, wlast, wlen, wn, werr, fdp, fdk, fdar, fdao, fdal, fdf, fdfl, fdw
-  ensures [C16] wcount == old(wcount) + 1 && n == wn && err == werr
+  ensures [C06,C16] wcount == old(wcount) + 1 && n == wn && err == werr
   ensures [C01] WF(wlast, wlen, false)
   ensures [C03] LS(wlast, wlen)
   ensures [C16] Routed(2, args) && sameView(fdf, format) && fdfl == len(format)
